@@ -361,6 +361,10 @@ rfbNewTCPOrUDPClient(rfbScreenInfoPtr rfbScreen,
 #ifndef FUZZING_BUILD_MODE_UNSAFE_FOR_PRODUCTION
       if(!rfbSetNonBlocking(sock)) {
 	rfbCloseSocket(sock);
+	/* the client is not linked anywhere yet: drop the screen reference, free the record */
+	cl->scaledScreen->scaledScreenRefCount--;
+	free(cl->host);
+	free(cl);
 	return NULL;
       }
 
